@@ -7,11 +7,11 @@ CONSTANTS
   L1 = 0
   L2 = 0
   MaxArgs = 3
-  Fns = {"chars", "glue", "rule", "disc", "lig", "hbox", "insertion", "math", "mark", "kern", "penalty", "vbox", "adjust"}
+  Fns = {"chars", "glue", "penalty"}
   Rich = FALSE
   TextLen = 0
   Chars = {}
   IntParts = {}
   Sample = 1
-INVARIANTS InvCallTotal InvNormalForm InvModeDiscipline InvBindingIsFunction InvOkMeansEachParameterOnce InvPositionalFirst InvRenderReads InvFormat
+INVARIANTS InvCallTotal InvNormalForm InvModeDiscipline InvBindingIsFunction InvOkMeansEachParameterOnce InvPositionalFirst
 CHECK_DEADLOCK FALSE
